@@ -8,7 +8,7 @@ use super::rng::Rng;
 
 pub const INLINE: usize = 2 * std::mem::size_of::<usize>();
 
-const ASCII: &[u8] = b"abcdefghijklmnopqrstuvwxyz0123456789 _-";
+const ASCII: &[u8] = b"abcdefghijklmnopqrstuvwxyz0123456789 _-\0\x7f\n";
 const W2: &[char] = &['é', 'ß', 'ñ', 'Ω', 'ж', '\u{80}', '\u{7FF}'];
 const W3: &[char] = &['€', '世', '界', 'あ', '\u{800}', '\u{FFFD}', '\u{FFFF}'];
 const W4: &[char] = &['🦀', '𝄞', '😀', '\u{10000}', '\u{10FFFF}'];
